@@ -10,6 +10,7 @@ mod c02;
 mod c04;
 mod ssk;
 mod dens;
+mod ord;
 use util::*;
 
 fn main() {
@@ -66,6 +67,7 @@ fn main() {
                 "C02" => c02::corr(&mut ctx),
                 "C04" => c04::corr(&mut ctx),
                 "DENS" => dens::corr(&mut ctx),
+                "ORD" => ord::corr(&mut ctx),
                 "SSK" => { ssk::corr_sets(&mut ctx); ssk::corr_merge(&mut ctx) }
                 "C19sweep" => c19::sweep(&mut ctx),
                 _ => {
